@@ -7,7 +7,7 @@ from ..simharness import CancelLog, ExecutionLog, OrderLog, run_case
 from ._market_common import frac, fuzz_part, make_check
 
 ID = "C03"
-RULE = ("Histories as for C01 with batch mode weighted 3:1 and 15-30% market orders, so that crossed books with market "
+RULE = ("(machine part also: clock jumps of 2-12 steps through Market._set_time; one history in three contains a book that crosses while the market is closed and is carried over 1-2 clock steps) Histories as for C01 with batch mode weighted 3:1 and 15-30% market orders, so that crossed books with market "
         "orders on one or both sides accumulate while matching is off. After every round: no exception, post-state "
         "uncrossed (on the independent model driven by the actual fills and on pams' getters), per-order fill totals equal "
         "the reference greedy walk. Non-trivial = history with a round on a book crossed by >=2 levels or holding market "
